@@ -1,6 +1,12 @@
 """LLTD frame builders for the generators (hex strings)."""
 BCAST = 'ffffffffffff'
 
+# what every frame-level check runs next to its targeted cases (appended to the rule text of its evidence)
+COMMON_RULE = ('; plus, in every frame-level check: universal traffic (1-3 interfaces, now and then 9 / 17 / 24; every frame type, sender, path, service; attribute, MTU, icon, name '
+               'changes between frames; twin and near-colliding addresses; realistic host names / SSIDs; blobs up to 70000 bytes; port conventions failrc / sendok / emptyrep / failsize / memcmprep / align; '
+               'clock steps between frames; a second interface handled inside a sleep of the first (nest)), the same with platform faults injected where the predicate is stated for them, '
+               'all frame sequences up to length 2 (thorough 3) over a 23-frame alphabet, and soak cases (one kind of event repeated 300-700 times, once 8300, thorough 70000, then ordinary traffic)')
+
 
 def hx(v, n):
     return ('%0' + str(2 * n) + 'x') % (v & ((1 << (8 * n)) - 1))
